@@ -20,7 +20,7 @@ BOUNDS = {'quick': 'all digraphs (self loops included) on <=3 files chosen lazil
           'thorough': 'digraphs on 4 files with out-degree <=2'}
 from . import project as _project
 BOUNDS = {k: v + _project.bounds_note('C03', k) for k, v in BOUNDS.items()}
-ASSUMPTIONS = ['as C02; aliases are spellings that canonicalize to the same path in the FS model (no symlinks)',
+ASSUMPTIONS = ['as C02; aliases are spellings that canonicalize to the same path in the FS model; symbolic links occur only in the project layouts `links` / `links-ok` (a linked source file, a linked sub-directory)',
                'termination = the coordinator loop exits within the step bound on every schedule of the model (real time is not modelled)']
 COVERS_REQUIRED = ['acyclic', 'cyclic']
 replay = sched.replay
